@@ -36,7 +36,10 @@ def run(ctx):
                "table; only the selected branch of a conditional is evaluated; "
                "unknown variables raise UnknownVariableError(name); no handler "
                "catches arithmetic errors; every child is evaluated; unhandled "
-               "node types raise; cached variants add no handlers")
+               "node types raise; cached variants add no handlers; the "
+               "memoizing evaluator's look-aside (CachedMapper.__call__ and "
+               "get_cache_key, the rule instances of C05) keys on the expression "
+               "itself and stores what the handler returned")
     ctx.decline("arithmetic of the underlying number types; map_polynomial, "
                 "map_nan, map_if_positive (outside the statement)")
     ctx.assume("pytools.product multiplies its arguments in order; "
@@ -95,6 +98,20 @@ def _judge(model, cls, kind, sym, fields, pss, mem):
                 "Add" if sym == "+" else "Mult") and rv[3] == acc and rv[2] in (
                 ("const", 0 if sym == "+" else 1),):
             # result = neutral; for child in children: result = result OP rec(child)
+            # -- and no exit from the loop that depends on a computed value:
+            # a short-circuit skips operands whose evaluation may raise
+            for ps in rets:
+                if ps.retval != rv:
+                    return False, "the fold returns different values on " \
+                        "different paths"
+                for _, pol, v in ps.conds:
+                    if isinstance(v, tuple) and contains(
+                            v, lambda t: t[0] in ("rec", "binop")):
+                        return False, (
+                            "the fold over the children leaves (or branches "
+                            "inside) the loop depending on a computed value: "
+                            "operands after that point are not evaluated, so "
+                            "their errors are swallowed")
             return True, "left fold of the children in order"
         if sym == "+":
             ok = rv[0] == "call" and rv[1] == "sum" and len(rv[2]) == 1 and \
@@ -379,6 +396,10 @@ def _variants(ctx, model):
         ctx.ob(f"P/{fname}/entry", ok, m.loc(fn),
                "mapper_cls(context)(expression)" if ok else
                f"{fname} does not apply mapper_cls(context) to the expression")
+    # cached and uncached agree: the look-aside of the memoizing evaluator
+    from .c05 import _cache_key, check_lookaside
+    _cache_key(ctx, model)
+    check_lookaside(ctx, model)
     # the mix-in must win in both
     for c in (ev, cev):
         mem = model.lookup(c, "map_common_subexpression")
